@@ -65,6 +65,7 @@ type Rec struct {
 	Traces      int64
 
 	StatesAreOutcomes bool
+	findings []Finding
 	// process sharding: a child process runs shard Shard of Shards and dumps a Partial instead of finishing
 	Shard, Shards int
 }
@@ -191,7 +192,7 @@ func New(id, tier, level string) *Rec {
 
 // Expired: the internal deadline passed (or, for mutant runs only, VERIF_STOP_ON_VIOLATION is set and one was found).
 func (r *Rec) Expired() bool {
-	if stopOnViolation && r.NumViolations() > 0 {
+	if stopOnViolation && r.numFresh() > 0 {
 		return true
 	}
 	return time.Now().After(r.Deadline)
@@ -256,6 +257,31 @@ func (r *Rec) Violation(sig, msg string, detail any) {
 
 // StatesFromOutcomes makes Finish report the number of distinct outcome keys as the number of states.
 func (r *Rec) StatesFromOutcomes() { r.Extra["states_are_outcomes"] = true }
+
+// numFresh counts recorded violations that are not listed as known findings.
+func (r *Rec) numFresh() int {
+	r.mu.Lock()
+	defer r.mu.Unlock()
+	if r.findings == nil {
+		r.findings = loadFindings()
+		if r.findings == nil {
+			r.findings = []Finding{}
+		}
+	}
+	n := 0
+	for s := range r.viol {
+		known := false
+		for _, f := range r.findings {
+			if matches(f, r.ID, s) {
+				known = true
+			}
+		}
+		if !known {
+			n++
+		}
+	}
+	return n
+}
 
 func (r *Rec) NumViolations() int { r.mu.Lock(); defer r.mu.Unlock(); return len(r.viol) }
 
